@@ -82,3 +82,15 @@ Proof.
   rewrite (t2_walk_reach _ em em2 _ _ _ _ _ _ _ _ _ l' v' e' Hw); [| split; [exact HL | intros; apply HG; lia] | exact HR].
   cbn [bind]. unfold set_val. rewrite Hc, Hrd, Hwr. reflexivity.
 Qed.
+
+(* ---- the repaired reader: the walk followed by the test that the NDEF TLV lies inside the data area ---- *)
+Lemma t2_reader_inv em L : t2_reader em = Ok (Some L) -> t2_read em = Ok (Some L) /\ ndef_fits em L = true.
+Proof. unfold t2_reader. destruct (t2_read em) as [[L'|]| | |]; try discriminate.
+  destruct (ndef_fits em L') eqn:E; [|discriminate]. intro H. injection H as <-. auto. Qed.
+Lemma t2_reader_intro em L : t2_read em = Ok (Some L) -> ndef_fits em L = true -> t2_reader em = Ok (Some L).
+Proof. intros H F. unfold t2_reader. rewrite H, F. reflexivity. Qed.
+Lemma t2_reader_transfer em em2 L l' v' e' : t2_read em = Ok (Some L) ->
+  agree_below (Z.max 16 (l_hw L)) em em2 -> ndef_fits em2 (set_val L v') = true ->
+  read_tlv em2 (l_off L) (l_skip L) = Ok (3, l', v', e') ->
+  t2_reader em2 = Ok (Some (set_val L v')).
+Proof. intros H HA HF HR. apply t2_reader_intro; [eapply t2_read_transfer; eassumption | exact HF]. Qed.
